@@ -36,7 +36,7 @@ def prop(pid, rules, explanation, level, note, technique, design_ref, assumption
 
 prop('C01',
      [PD.pd1, PD.pd2, PD.pd3, PD.pd4, PD.pd5, PD.pd8, SC.pd6, MI.pd0, MI.tx1, MI.df1, OK.ok4, EM.em1, AB.ab1, LS.ls1, LS.ls1_ml, LS.ls1_shell, LS.ls1w, AB.ab3, R2.okv,
-      T.sp3, R4.pd9],
+      T.sp3, R4.pd9, R5.em8, R5.pd10],
      'inductive argument from static rules: tokens outside the scanner are pinned, '
      'single-character or faithful copies (PD1, PD2, SP3), pinned positions are never shifted '
      'or spread (PD3, PD4), shared tokens are never re-stamped (PD5), the error mark is used '
@@ -81,7 +81,7 @@ prop('C03',
      'DESIGN.md 3.8 (DT1, EX1), 3.4 (DF1), 4 C03')
 
 prop('C04',
-     [PD.pd1, PD.pd2, PD.pd3, PD.pd5, PD.pd8, MI.pd0, ST.pd7, AB.ab1, AB.ab3, R4.pd9, C9.sb1],
+     [PD.pd1, PD.pd2, PD.pd3, PD.pd5, PD.pd8, MI.pd0, ST.pd7, AB.ab1, AB.ab3, R4.pd9, C9.sb1, OK.ok2, R3.rs1, R5.pd10],
      'every generated token is pinned (PD1), re-stamped tokens are pinned (PD2), and bodies, '
      'defaults, glossary and cleveref replacements are copied before they are stamped (PD5)',
      'decides that generated text cannot spread or be re-mapped by a later use; not decided: '
@@ -107,7 +107,7 @@ prop('C05',
      'DESIGN.md 3.8 (AC1, AC2), 4 C05')
 
 prop('C06',
-     [T.sp1, T.sp2, T.sp3, T.ix4, MI.pd0, SC.sp4, SC.pd6, R3.ix15, R3.ac3, PD.pd1, PD.pd5, R3.sc7, R4.nl1, ST.ls2p],
+     [T.sp1, T.sp2, T.sp3, T.ix4, MI.pd0, SC.sp4, SC.pd6, R3.ix15, R3.ac3, PD.pd1, PD.pd5, R3.sc7, R4.nl1, ST.ls2p, R3.rs1, R5.dt1c, R5.tx3],
      'static table and dispatch rules: the special-sequence table equals the documented one '
      'and contains nothing else that plain prose could hit (SP1), values are never longer '
      'than keys (SP3), longest match (SP2), tables well-formed (IX4)',
@@ -122,7 +122,7 @@ prop('C06',
      'DESIGN.md 3.8 (SP1-SP3), 3.6 (IX4), 4 C06')
 
 prop('C07',
-     [SC.pd6, T.ix4, ST.at1, RG.ix1, RG.ix2a, MO.ix2s, MO.ix6, MO.ix7, MO.ix8, MO.ix9, MO.ix10, MO.pg1, MI.tx1, R3.sp5, R3.ix11, R3.ix12, R3.ix13, R3.ix15, R4.ix16, MO.ml2],
+     [SC.pd6, T.ix4, ST.at1, RG.ix1, RG.ix2a, MO.ix2s, MO.ix6, MO.ix7, MO.ix8, MO.ix9, MO.ix10, MO.pg1, MI.tx1, R3.sp5, R3.ix11, R3.ix12, R3.ix13, R3.ix15, R4.ix16, MO.ml2, ST.ex1, R5.ix17],
      'progress of the scanner on every path (PD6: the scan position strictly increases, with '
      'bounds of next()/find() results), well-formed tables (IX4)',
      'decides termination of the scanner and table well-formedness; further index-safety rules '
@@ -133,7 +133,7 @@ prop('C07',
      'DESIGN.md 3.6, 4 C07')
 
 prop('C08',
-     [EM.em1, EM.em2, EM.em3, R2.em4, AB.ab1, OK.ok1, SC.sc5, R3.rs1, R4.em5, MI.dt1, R4.em6, R4.st1, MI.ex2, R5.pair1, R5.em7],
+     [EM.em1, EM.em2, EM.em3, R2.em4, AB.ab1, OK.ok1, SC.sc5, R3.rs1, R4.em5, MI.dt1, R4.em6, R4.st1, MI.ex2, R5.pair1, R5.em7, R5.em8],
      'the mark is used whole (EM1), is produced only together with a diagnostic (EM2), and '
      'recovery pushes the consumed tokens back (EM3)',
      'decides the structural clauses "complete mark", "never a mark without diagnostic", '
@@ -167,7 +167,7 @@ prop('C09',
      'DESIGN.md 3.8, 4 C09')
 
 prop('C10',
-     [MT.mt1, MT.mt2, MT.mt5, R2.mt6, R2.mt7, R2.mt8, MI.ex2, MI.lc1, PS.ps3, T.mt4, PD.pd1, R3.ix14, MO.ml2, R3.tk1, PD.pd5, R4.sh1, R4.nm1, MI.dt1],
+     [MT.mt1, MT.mt2, MT.mt5, R2.mt6, R2.mt7, R2.mt8, MI.ex2, MI.lc1, PS.ps3, T.mt4, PD.pd1, R3.ix14, MO.ml2, R3.tk1, PD.pd5, R4.sh1, R4.nm1, MI.dt1, ST.ex1, R5.mt4b],
      'rotation state: an argument is expanded once (EX2: formulas inside handler arguments '
      'consume one placeholder), collections are per language and looked up at the time of use '
      '(LC1), punctuation entries are single characters (MT4), generated tokens pinned (PD1)',
@@ -183,7 +183,7 @@ prop('C10',
      'DESIGN.md 3.8 (MT1-MT4), 4 C10')
 
 prop('C11',
-     [MT.mt1, MT.mt2, MT.mt3, MT.mt5, R2.mt6, R2.mt7, R2.mt8, T.mt4, MI.lc1, PS.ps3, PD.pd1, R3.ix14, MO.ml2, R3.tk1, PD.pd5, R4.nm1],
+     [MT.mt1, MT.mt2, MT.mt3, MT.mt5, R2.mt6, R2.mt7, R2.mt8, T.mt4, MI.lc1, PS.ps3, PD.pd1, R3.ix14, MO.ml2, R3.tk1, PD.pd5, R4.nm1, R5.mt4b, R5.at3],
      'the decision table of replace_section equals the documented scheme incl. rotation points, '
      'operator words and punctuation (MT1); section flag / next-replacement threading and the '
      'final punctuation of simple / removed equations (MT2); all catalogue equation '
@@ -199,7 +199,7 @@ prop('C11',
      'DESIGN.md 3.8 (MT1-MT5), 4 C11')
 
 prop('C12',
-     [LS.ls1_ml, MO.ml2, R2.ml4, R2.lc2, MI.ml6, MI.lc1, ST.ex1, OK.ok4, R2.okv, R3.ml7, R3.ml8, R4.acc1, R4.sh1, R4.lt1, R4.lt2, LS.ls1_shell, OK.ok2, R5.sbl2],
+     [LS.ls1_ml, MO.ml2, R2.ml4, R2.lc2, MI.ml6, MI.lc1, ST.ex1, OK.ok4, R2.okv, R3.ml7, R3.ml8, R4.acc1, R4.sh1, R4.lt1, R4.lt2, LS.ls1_shell, OK.ok2, R5.sbl2, R5.lc4],
      'text and map of every language section stay in lock step through sectioning, joining '
      'and placeholder insertion (LS1m)',
      'decides only the lock-step clause of C12 so far',
@@ -218,7 +218,7 @@ prop('C13',
      'DESIGN.md 3.2, 4 C13')
 
 prop('C14',
-     [OK.ok1, OK.ok2, OK.ok4, R2.th3, R2.okv, LS.ls1_shell, AB.ab2, MI.oks, PS.ps1, R3.ok6, R3.ml7, R3.ix13, R2.cm2, R4.ml9, R5.tx2],
+     [OK.ok1, OK.ok2, OK.ok4, R2.th3, R2.okv, LS.ls1_shell, AB.ab2, MI.oks, PS.ps1, R3.ok6, R3.ml7, R3.ix13, R2.cm2, R4.ml9, R5.tx2, MO.ln1, MO.ml2, AB.ab3, LS.ls1],
      'the chain part offset -> total offset -> LaTeX offset -> line / column: every match of a '
      'part is shifted once by the text accumulated before it (OK2), the accumulated text and map '
      'stay in lock step incl. delimiter padding (LS1s), map entries are read through abs() and '
@@ -292,7 +292,7 @@ prop('C19',
      'DESIGN.md 3.8 (UK1-UK4), 4 C19')
 
 prop('C20',
-     [RX.ck1, RX.ck4, RX.ck5, RX.ab4, OK.ok2, PS.ps1, R3.lc3, R3.ck6, R3.ck7, R4.ck8, R4.ck10, R4.rx7],
+     [RX.ck1, RX.ck4, RX.ck5, RX.ab4, OK.ok2, PS.ps1, R3.lc3, R3.ck6, R3.ck7, R4.ck8, R4.ck10, R4.rx7, R5.un1, R5.lc4],
      'single-letter scan pattern has width 1 between word boundaries and letters only, accepted '
      'patterns are literal, the suppression test is beg <= position < end with the right '
      'strictness, offset and length come from one match (CK1); the equation-punctuation pattern '
